@@ -4,6 +4,7 @@ the object invariant and the interference (havoc) function.  DESIGN.md 2.6.
 """
 from __future__ import annotations
 
+from pyvc.values import unmodelled as _unmodelled  # noqa: E402
 import z3
 
 from pyvc import sym, aio
@@ -43,7 +44,7 @@ class _Obj:
         if name in self._methods:
             f = self._methods[name]
             return Builtin(f"{self._name}.{name}", lambda *a, **k: f(it, *a, **k))
-        raise it.exc("AttributeError", f"{self._name}.{name}")
+        raise _unmodelled(self, name)
 
     def py_truth(self, it):
         return True
